@@ -53,6 +53,8 @@ CONSTANTS Kinds,      \* subset of {"standard", "sliding", "fading"}
           Windows,    \* window sizes tried for SlidingNis
           Deltas,     \* fading factors <<p, q>>, 0 < p < q
           NAlpha,     \* significance levels are indexed 1..NAlpha (values live in the harness)
+          Bank,       \* TRUE: one behaviour stands for the NAlpha detectors that differ only in
+                      \* their threshold (see "alphas" below); FALSE: one threshold per behaviour
           NisVals,    \* numerators n of the NIS values n/NisDen posed per step
           NisDen,
           Dims,       \* measurement dimensions posed per step
@@ -87,13 +89,17 @@ BoundNum(a, x) ==
       ix == FindDof(T, x, 1, Len(T))
   IN IF ix = 0 THEN Assert(FALSE, <<"NOBOUND", a, x>>) ELSE T[ix][3]
 
-\* not oneSidedChiSquareTest(metric, threshold, dof)  ==  metric >= bound
-Reaches(a, m, x) == BLe(BMul(BFromNat(BoundNum(a, x)), m.den), BMul(m.num, BoundDenBig))
-Undecided(a, m, x) ==
-  LET b  == BoundNum(a, x)
-      lo == IF b > Band THEN b - Band ELSE 0
-      s  == BMul(m.num, BoundDenBig)
-  IN BLe(BMul(BFromNat(lo), m.den), s) /\ BLe(s, BMul(BFromNat(b + Band), m.den))
+\* not oneSidedChiSquareTest(metric, threshold, dof)  ==  metric >= bound.
+\* Verdict = [det |-> metric >= b/BoundDen, und |-> |metric - b/BoundDen| <= Band/BoundDen]
+Verdict(a, m, x) ==
+  LET b   == BoundNum(a, x)
+      s   == BMul(m.num, BoundDenBig)
+      det == BLe(BMul(BFromNat(b), m.den), s)
+  IN [det |-> det,
+      und |-> IF det THEN BLe(s, BMul(BFromNat(b + Band), m.den))
+                     ELSE BLe(BMul(BFromNat(IF b > Band THEN b - Band ELSE 0), m.den), s)]
+Reaches(a, m, x)   == Verdict(a, m, x).det
+Undecided(a, m, x) == Verdict(a, m, x).und
 
 \* ---------------------------------------------------------------- helpers
 RECURSIVE SumSeq(_)
@@ -102,10 +108,17 @@ MinOf(a, b) == IF a < b THEN a ELSE b
 \* deque(maxlen = w).append(x)
 Push(s, x, w) == IF Len(s) = w THEN Append(Tail(s), x) ELSE Append(s, x)
 
-StdCfg(a)     == [kind |-> "standard", w |-> 0, delta |-> <<0, 1>>, alpha |-> a]
-SlideCfg(a, w) == [kind |-> "sliding", w |-> w, delta |-> <<0, 1>>, alpha |-> a]
-FadeCfg(a, d) == [kind |-> "fading", w |-> 0, delta |-> d, alpha |-> a]
-NoCfg         == [kind |-> "none", w |-> 0, delta |-> <<0, 1>>, alpha |-> 0]
+\* A detector of the code has one threshold.  The threshold enters nothing but the final
+\* test, so detectors that differ only in it have identical memory, metric and dof; the
+\* configuration therefore carries the SET of significance levels (alphas) at which the
+\* statistic is tested and detect is a function over it.  A singleton is the code's
+\* detector; a larger set is a bank of them fed the same history (one TLC behaviour
+\* instead of NAlpha identical ones).
+StdCfg(A)      == [kind |-> "standard", w |-> 0, delta |-> <<0, 1>>, alphas |-> A]
+SlideCfg(A, w) == [kind |-> "sliding", w |-> w, delta |-> <<0, 1>>, alphas |-> A]
+FadeCfg(A, d)  == [kind |-> "fading", w |-> 0, delta |-> d, alphas |-> A]
+NoCfg          == [kind |-> "none", w |-> 0, delta |-> <<0, 1>>, alphas |-> {}]
+AlphaSets      == IF Bank THEN {1..NAlpha} ELSE {{a} : a \in 1..NAlpha}
 
 \* histories longer than this add nothing for the detector at hand: StandardNis has no
 \* memory; a window of w has been filled and has evicted twice after w + 2 calls; the
@@ -161,18 +174,19 @@ B01(b) == IF b THEN 1 ELSE 0
 Init == /\ pc = "new" /\ cfg = NoCfg /\ k = 0
         /\ nisList = <<>> /\ dimList = <<>> /\ priorNum = <<>> /\ qpow = <<1>>
         /\ totalDim = 0 /\ total = 0
-        /\ metric = BRat(0, 1) /\ dof = Q(0) /\ detect = FALSE /\ hist = <<>>
+        /\ metric = BRat(0, 1) /\ dof = Q(0) /\ detect = <<>> /\ hist = <<>>
 
 \* the three __init__ methods: empty deques of maxlen w / prior_nis = 0, total_dim = total = 0
 ConstructAs(c) == /\ pc = "new"
                   /\ cfg' = c /\ pc' = "ready"
                   /\ UNCHANGED <<mem, outs, k, hist>>
-ConstructStandard == "standard" \in Kinds /\ \E a \in 1..NAlpha : ConstructAs(StdCfg(a))
-ConstructSliding  == "sliding" \in Kinds /\ \E a \in 1..NAlpha, w \in Windows : ConstructAs(SlideCfg(a, w))
-ConstructFading   == "fading" \in Kinds /\ \E a \in 1..NAlpha, dl \in Deltas : ConstructAs(FadeCfg(a, dl))
+ConstructStandard == "standard" \in Kinds /\ \E A \in AlphaSets : ConstructAs(StdCfg(A))
+ConstructSliding  == "sliding" \in Kinds /\ \E A \in AlphaSets, w \in Windows : ConstructAs(SlideCfg(A, w))
+ConstructFading   == "fading" \in Kinds /\ \E A \in AlphaSets, dl \in Deltas : ConstructAs(FadeCfg(A, dl))
 
 Apply(r, n, d) ==
-  LET det == Reaches(cfg.alpha, r.metric, r.dof)
+  LET v   == TLCEval([a \in cfg.alphas |-> Verdict(a, r.metric, r.dof)])
+      det == [a \in cfg.alphas |-> v[a].det]
   IN /\ nisList' = r.mem.nisList /\ dimList' = r.mem.dimList
      /\ priorNum' = r.mem.priorNum /\ qpow' = r.mem.qpow
      /\ totalDim' = r.mem.totalDim /\ total' = r.mem.total
@@ -180,7 +194,8 @@ Apply(r, n, d) ==
      /\ k' = k + 1
      /\ hist' = IF KeepHist
                   THEN Append(hist, <<n, d, r.metric.num, r.metric.den, r.dof[1], r.dof[2],
-                                      B01(det), B01(Undecided(cfg.alpha, r.metric, r.dof))>>)
+                                      [a \in cfg.alphas |-> B01(v[a].det)],
+                                      [a \in cfg.alphas |-> B01(v[a].und)]>>)
                   ELSE hist
      /\ UNCHANGED <<pc, cfg>>
 
@@ -194,6 +209,14 @@ Next == \/ ConstructStandard \/ ConstructSliding \/ ConstructFading
         \/ \E n \in NisVals, d \in Dims : Step(n, d)
 Spec == Init /\ [][Next]_vars
 
+\* for tlc -simulate: the same behaviours, but the input of each call is drawn by TLC's
+\* seeded generator instead of enumerating every (n, d) just to pick one of them
+\* (the sets mention k so that TLC does not evaluate the draw once as a constant)
+Draw(S) == RandomElement(IF k >= 0 THEN S ELSE {})
+SimNext == \/ ConstructStandard \/ ConstructSliding \/ ConstructFading
+           \/ \E n \in {Draw(NisVals)}, d \in {Draw(Dims)} : Step(n, d)
+SimSpec == Init /\ [][SimNext]_vars
+
 \* ---------------------------------------------------------------- properties
 Called == pc = "ready" /\ k > 0
 
@@ -202,11 +225,12 @@ TypeOK ==
   /\ Len(nisList) = Len(dimList)
   /\ BWellFormed(priorNum) /\ BWellFormed(qpow)
   /\ BWellFormed(metric.num) /\ BWellFormed(metric.den) /\ metric.den # <<>>
-  /\ dof[2] > 0 /\ detect \in BOOLEAN
+  /\ dof[2] > 0
+  /\ detect \in [IF k = 0 THEN {} ELSE cfg.alphas -> BOOLEAN]
   /\ (KeepHist => Len(hist) = k)
 
 \* C17, clause 1: a maneuver is declared exactly when the statistic reaches the bound
-DetectIffReaches == Called => (detect <=> Reaches(cfg.alpha, metric, dof))
+DetectIffReaches == Called => \A a \in cfg.alphas : detect[a] <=> Reaches(a, metric, dof)
 
 \* the sliding window holds exactly the last min(k, w) steps
 WindowIsLastW ==
@@ -249,26 +273,39 @@ DocFading ==
 \* C17, last clause.  Scaling the latest innovation by c >= 1 multiplies its NIS by c^2 and
 \* leaves the dimension alone: the dof is unchanged, the statistic does not decrease, and a
 \* detection stays a detection.
-MonoPair(n1, n2, d) ==
-  LET r1 == Call(cfg, Mem, n1, d)
-      r2 == Call(cfg, Mem, n2, d)
-  IN /\ r1.dof = r2.dof
-     /\ BRatLe(r1.metric, r2.metric)
-     /\ (Reaches(cfg.alpha, r1.metric, r1.dof) => Reaches(cfg.alpha, r2.metric, r2.dof))
+\* (TLCEval: build the table once instead of re-evaluating a call at every use)
+After(d) == TLCEval([n \in NisVals |-> LET r == Call(cfg, Mem, n, d)
+                                         IN [metric |-> r.metric, dof |-> r.dof,
+                                             det |-> [a \in cfg.alphas |-> Reaches(a, r.metric, r.dof)]]])
+MonoPair(f, n1, n2) ==
+  /\ f[n1].dof = f[n2].dof
+  /\ BRatLe(f[n1].metric, f[n2].metric)
+  /\ \A a \in cfg.alphas : f[n1].det[a] => f[n2].det[a]
 MonotoneInLatest ==
-  Ready => \A d \in Dims : \A n1, n2 \in NisVals : n1 < n2 => MonoPair(n1, n2, d)
-\* the same over neighbouring values only (implies the above by transitivity; cheap for
-\* large NisVals)
+  Ready => \A d \in Dims : LET f == After(d)
+                           IN \A n1, n2 \in NisVals : n1 < n2 => MonoPair(f, n1, n2)
+\* the same over neighbouring values only (implies the above by transitivity), for one
+\* pseudo-randomly chosen dimension per state: the cheap form used with -simulate
+MonotoneInLatestSampled ==
+  Ready => \A d \in {Draw(Dims)} :
+             LET f == After(d)
+             IN \A n1 \in NisVals :
+                  LET up == {x \in NisVals : x > n1}
+                  IN up # {} => MonoPair(f, n1, CHOOSE x \in up : \A y \in up : x <= y)
+\* neighbouring values, every dimension (merged-state configurations)
 MonotoneInLatestAdj ==
-  Ready => \A d \in Dims : \A n1 \in NisVals :
-             LET up == {x \in NisVals : x > n1}
-             IN up # {} => MonoPair(n1, CHOOSE x \in up : \A y \in up : x <= y, d)
+  Ready => \A d \in Dims :
+             LET f == After(d)
+             IN \A n1 \in NisVals :
+                  LET up == {x \in NisVals : x > n1}
+                  IN up # {} => MonoPair(f, n1, CHOOSE x \in up : \A y \in up : x <= y)
 
 \* ---------------------------------------------------------------- to the harness
 \* a finished history with what every call must report:
-\*   <<kind, w, p, q, alpha, <<n, d, metricNum, metricDen, dofNum, dofDen, detect, undecided>>...>>
-Emit == (KeepHist /\ pc = "ready" /\ k = MaxLenOf(cfg)) =>
-          PrintT("HIST " \o ToJson(<<cfg.kind, cfg.w, cfg.delta[1], cfg.delta[2], cfg.alpha, hist>>))
+\*   <<kind, w, p, q, <<n, d, metricNum, metricDen, dofNum, dofDen, detect, undecided>>...>>
+\* with detect / undecided listed per significance level 1..NAlpha (needs Bank)
+Emit == (KeepHist /\ Bank /\ pc = "ready" /\ k = MaxLenOf(cfg)) =>
+          PrintT("HIST " \o ToJson(<<cfg.kind, cfg.w, cfg.delta[1], cfg.delta[2], hist>>))
 
 \* ---- named constant values for cfg files (cfg syntax has no tuples) ----
 DeltasQuick == {<<1, 2>>, <<4, 5>>}
